@@ -380,6 +380,36 @@ def d6_chisq(ctx, fits):
     ctx.floor('chi-square residual definitions', sum(1 for o in ctx.obs if o.rule == rule), 9)
 
 
+def d9_priors(ctx, fits):
+    rule = 'C07-D9'
+    f = fits.func('least_squares')
+    t = unparse(f)
+    # list form: one prior per parameter, mask = all positions in order
+    ok = 'loc_priors.append(_construct_prior_obs(i_prior, i_n))' in t and 'for i_n, i_prior in enumerate(priors):' in t and 'prior_mask = np.arange(len(priors))' in t
+    ctx.check(rule, 'fits.py:least_squares#priors-list', ok, 'list priors: prior k constrains parameter k', 'list prior handling differs')
+    g = [unparse(guards_of(fits, s_, stop=f)[-1][0]) for s_ in statements(f) if isinstance(s_, ast.Raise) and guards_of(fits, s_, stop=f)]
+    ctx.check(rule, 'fits.py:least_squares#priors-length', 'n_parms != len(priors)' in g, 'a prior list of the wrong length is rejected', 'guards %s' % [x for x in g if 'prior' in x])
+    # dict form: position and prior appended in the same iteration
+    lp = [s_ for s_ in statements(f) if isinstance(s_, ast.For) and unparse(s_.iter) == 'priors.items()']
+    ok = False
+    if len(lp) == 1 and isinstance(lp[0].target, ast.Tuple):
+        pos, pr = [unparse(e) for e in lp[0].target.elts]
+        body = ' ; '.join(unparse(x) for x in lp[0].body)
+        ok = 'prior_mask.append(%s)' % pos in body and 'loc_priors.append(_construct_prior_obs(%s, %s))' % (pr, pos) in body
+    ctx.check(rule, 'fits.py:least_squares#priors-dict', ok, 'dict priors: position and prior are appended in the same iteration', 'dict prior handling differs')
+    ctx.check(rule, 'fits.py:least_squares#priors-range', 'max(prior_mask) >= n_parms' in g, 'prior positions outside the parameter range are rejected', 'guards %s' % [x for x in g if 'prior' in x])
+    pf, dpf = find_def(f, 'p_f'), find_def(f, 'dp_f')
+    ok = any(unparse(s_.value) == '[o.value for o in loc_priors]' for s_ in pf) and any(unparse(s_.value) == '[o.dvalue for o in loc_priors]' for s_ in dpf)
+    ctx.check(rule, 'fits.py:least_squares#prior-values', ok, 'prior central values and errors in the order of loc_priors', 'p_f / dp_f differ')
+    c = fits.func('_construct_prior_obs')
+    t = unparse(c)
+    ok = 'isinstance(i_prior, Obs)' in t and 'return i_prior' in t and 'isinstance(i_prior, str)' in t and "raise TypeError" in t
+    ctx.check(rule, 'fits.py:_construct_prior_obs#dispatch', ok, 'Obs priors are used as they are, strings are parsed, anything else is rejected', 'prior construction differs')
+    # no priors: empty vectors, the chi-square has no prior rows
+    ok = 'p_f = dp_f = np.array([])' in unparse(f) and 'prior_mask = []' in unparse(f) and 'loc_priors = []' in unparse(f)
+    ctx.check(rule, 'fits.py:least_squares#no-priors', ok, 'without priors all prior vectors are empty', 'no-prior defaults differ')
+
+
 def d7_corrfit(ctx):
     rule = 'C07-D7'
     cm = ctx.repo.mod('correlators')
@@ -423,6 +453,8 @@ def run(ctx):
     ctx.rule('C07-D8', 'no hidden state shared between fits')
     ctx.guarded('C07-D8', 'fits@hidden-state', hiddenstate.check, ctx, 'C07-D8', fits, [q for q, _ in fits.functions() if '.' not in q], 'the fit result')
     ctx.guarded('C07-D7', 'correlators.py:Corr.fit', d7_corrfit, ctx)
+    ctx.rule('C07-D9', 'prior bookkeeping (positions, order, validation)')
+    ctx.guarded('C07-D9', 'fits.py:least_squares@priors', d9_priors, ctx, fits)
 
 
 SELFTEST = [
@@ -442,5 +474,7 @@ SELFTEST = [
     ('corr-residual-unwhitened', 'pyerrors/fits.py', "anp.concatenate((anp.dot(chol_inv, (ivars - model)), (p[prior_mask] - pr) / dp_f))", "anp.concatenate((anp.dot(chol_inv, (ivars - model)) / dy_f, (p[prior_mask] - pr) / dp_f))", 'C07-D6'),
     ('corrfit-range', 'pyerrors/correlators.py', "xs = np.array([x for x in range(fitrange[0], fitrange[1] + 1) if self.content[x] is not None])", "xs = np.array([x for x in range(fitrange[0], fitrange[1]) if self.content[x] is not None])", 'C07-D7'),
     ('compact-closure-data', 'pyerrors/fits.py', "general_chisqfunc(d[:n_parms], d[n_parms: n_parms + len_y], d[n_parms + len_y:])", "general_chisqfunc(d[:n_parms], y_f, d[n_parms + len_y:])", 'C07-D1'),
+    ('prior-mask-shift', 'pyerrors/fits.py', "            prior_mask = np.arange(len(priors))", "            prior_mask = np.arange(1, len(priors) + 1) % len(priors)", 'C07-D9'),
+    ('prior-range-check', 'pyerrors/fits.py', "            if max(prior_mask) >= n_parms:", "            if max(prior_mask) > n_parms:", 'C07-D9'),
     ('benign-dof-reorder', 'pyerrors/fits.py', "output.dof = y_all.shape[-1] - n_parms + len(loc_priors)", "output.dof = len(loc_priors) + y_all.shape[-1] - n_parms", 'BENIGN'),
 ]
